@@ -34,4 +34,31 @@ def split_iri (iri_string : String) : Except PyErr (String × String) := do
     return ((prefix_ ++ char), name)
   return (prefix_, name)
 
+/-- `validate_type_compatibility` (pyjelly/options.py:126) -/
+def validate_type_compatibility (physical_type : Nat) (logical_type : Nat) : Except PyErr Unit := do
+  let mut physical_type_name : Nat := default
+  let mut logical_type_name : Nat := default
+  if ((physical_type == 0) || (logical_type == 0)) then
+    return ()
+  let mut triples_physical_type := (physical_type == 1)
+  let mut triples_logical_type := ([3, 13, 1].contains logical_type)
+  if (triples_physical_type != triples_logical_type) then
+    throw PyErr.jassertion
+
+/-- `StreamTypes.flat` (pyjelly/options.py:75) -/
+def StreamTypes.flat (logical_type : Nat) : Except PyErr Bool := do
+  return ([1, 2].contains logical_type)
+
+/-- `LookupPreset.__post_init__` (pyjelly/options.py:59) -/
+def LookupPreset.__post_init__ (max_names : Nat) : Except PyErr Unit := do
+  if (decide (max_names < 8)) then
+    throw PyErr.conformance
+
+/-- `StreamParameters.__post_init__ (the value `version` ends up with)` (pyjelly/options.py:110) -/
+def StreamParameters.__post_init__ (namespace_declarations : Bool) (version : Nat) : Except PyErr Nat := do
+  let mut selected := (if namespace_declarations then 2 else 1)
+  if (!((decide (1 ≤ selected) && decide (selected ≤ 2)))) then
+    throw PyErr.conformance
+  return selected
+
 end Jelly.Gen
